@@ -92,10 +92,15 @@ enum Msg {
     Exit(usize, Option<i32>, bool),
 }
 
+#[derive(Clone, Copy)]
 struct Slice {
     from: u64,
     to: u64,
+    /// 0 = the shipped build (this executable), 1 = the checked build (C16/C17)
+    variant: usize,
 }
+
+const VARIANTS: [&str; 2] = ["shipped", "checked"];
 
 pub fn check(prop: &str, tier: &str) -> i32 {
     let t0 = Instant::now();
@@ -109,6 +114,13 @@ pub fn check(prop: &str, tier: &str) -> i32 {
     let _ = std::fs::remove_dir_all(&outdir);
     std::fs::create_dir_all(&outdir).expect("create outdir");
     let exe = std::env::current_exe().expect("current exe");
+    let two_builds = matches!(prop, "C16" | "C17");
+    let checked_exe = std::env::var("ORXSIM_CHECKED_BIN").unwrap_or_default();
+    if two_builds && !std::path::Path::new(&checked_exe).exists() {
+        eprintln!("harness error: checked build not found (ORXSIM_CHECKED_BIN={checked_exe})");
+        return 2;
+    }
+    let exes = [exe.clone(), std::path::PathBuf::from(&checked_exe)];
 
     // slices: contiguous, independent of anything but (runs, nworkers); the run -> config mapping
     // does not depend on the slicing
@@ -117,7 +129,18 @@ pub fn check(prop: &str, tier: &str) -> i32 {
     let mut a = 0;
     while a < runs {
         let b = (a + per).min(runs);
-        queue.push(Slice { from: a, to: b });
+        queue.push(Slice {
+            from: a,
+            to: b,
+            variant: 0,
+        });
+        if two_builds {
+            queue.push(Slice {
+                from: a,
+                to: b,
+                variant: 1,
+            });
+        }
         a = b;
     }
     queue.reverse();
@@ -128,13 +151,14 @@ pub fn check(prop: &str, tier: &str) -> i32 {
     let mut violations: Vec<String> = Vec::new();
     let mut known_files: BTreeMap<String, String> = BTreeMap::new();
     let mut aborted_runs: Vec<(u64, String)> = Vec::new();
-    let mut confirm: BTreeMap<usize, u64> = BTreeMap::new(); // wid of single-run confirmation -> idx
-    let mut confirmed_aborts: Vec<u64> = Vec::new();
+    let mut confirm: BTreeMap<(u64, usize), bool> = BTreeMap::new(); // (idx, variant) under confirmation
+    let mut confirmed_aborts: Vec<(u64, usize)> = Vec::new();
+    let mut transcript_files: Vec<(usize, String)> = Vec::new();
     let mut stats_files: Vec<String> = Vec::new();
     let mut hash_files: Vec<String> = Vec::new();
 
     let spawn = |wid: usize, s: &Slice, tx: mpsc::Sender<Msg>| {
-        let mut child = Command::new(&exe)
+        let mut child = Command::new(&exes[s.variant])
             .arg("worker")
             .arg(prop)
             .arg(tier)
@@ -143,6 +167,7 @@ pub fn check(prop: &str, tier: &str) -> i32 {
             .arg(s.to.to_string())
             .arg(&outdir)
             .arg(wid.to_string())
+            .arg(VARIANTS[s.variant])
             .stdout(Stdio::piped())
             .stderr(Stdio::null())
             .spawn()
@@ -206,8 +231,15 @@ pub fn check(prop: &str, tier: &str) -> i32 {
                 if let Some(e) = live.get_mut(&w) {
                     e.2 = true;
                 }
-                stats_files.push(format!("{outdir}/stats-{w}.json"));
-                hash_files.push(format!("{outdir}/hashes-{w}.bin"));
+                let variant = live.get(&w).map(|e| e.0.variant).unwrap_or(0);
+                if variant == 0 {
+                    stats_files.push(format!("{outdir}/stats-{w}.json"));
+                    hash_files.push(format!("{outdir}/hashes-{w}.bin"));
+                }
+                transcript_files.push((
+                    variant,
+                    format!("{outdir}/transcripts-{}-{w}.bin", VARIANTS[variant]),
+                ));
             }
             Msg::Exit(w, code, ok) => {
                 running -= 1;
@@ -220,26 +252,35 @@ pub fn check(prop: &str, tier: &str) -> i32 {
                     Some(c) => format!("exit code {c}"),
                     None => "killed by a signal".to_string(),
                 };
-                if let Some(idx) = confirm.remove(&w) {
-                    confirmed_aborts.push(idx);
-                    aborted_runs.push((idx, format!("confirmed alone: {how}")));
+                let is_confirmation = slice.to == slice.from + 1
+                    && confirm.remove(&(slice.from, slice.variant)).is_some();
+                if is_confirmation {
+                    confirmed_aborts.push((slice.from, slice.variant));
+                    aborted_runs.push((
+                        slice.from,
+                        format!("{} build, confirmed alone: {how}", VARIANTS[slice.variant]),
+                    ));
                     continue;
                 }
-                aborted_runs.push((last, how));
+                aborted_runs.push((last, format!("{} build: {how}", VARIANTS[slice.variant])));
+                if aborted_runs.len() > 40 {
+                    // enough evidence; do not keep respawning
+                    continue;
+                }
                 // confirm alone, and continue with the rest of the slice
-                let cw = next_wid;
-                confirm.insert(cw, last);
+                confirm.insert((last, slice.variant), true);
                 queue.push(Slice {
                     from: last,
                     to: last + 1,
+                    variant: slice.variant,
                 });
-                // the confirmation worker takes the next wid: make sure it is spawned next
                 if last + 1 < slice.to {
                     queue.insert(
                         0,
                         Slice {
                             from: last + 1,
                             to: slice.to,
+                            variant: slice.variant,
                         },
                     );
                 }
@@ -275,7 +316,10 @@ pub fn check(prop: &str, tier: &str) -> i32 {
     let mut lines: Vec<String> = Vec::new();
     let mut harness_errors: Vec<String> = Vec::new();
     let final_dir = format!("{vdir}/replays");
-    for idx in &confirmed_aborts {
+    let mut abort_violations = 0usize;
+    confirmed_aborts.sort();
+    confirmed_aborts.dedup();
+    for (idx, variant) in confirmed_aborts.iter().take(5) {
         if abort_in_scope {
             let cfg = crate::gen::generate(prop, seed, *idx);
             let file = ReplayFile {
@@ -283,9 +327,11 @@ pub fn check(prop: &str, tier: &str) -> i32 {
                 base_seed: seed,
                 run_index: *idx,
                 class: "process-abort".to_string(),
-                message: "the process executing this run was terminated (abort / segmentation fault)"
-                    .to_string(),
-                event_hash: 0,
+                message: format!(
+                    "the {} build of the simulator executing this run was terminated (abort / segmentation fault)",
+                    VARIANTS[*variant]
+                ),
+                event_hash: *variant as u64,
                 minimised: false,
                 original_ops: 0,
                 original_deviations: 0,
@@ -295,6 +341,60 @@ pub fn check(prop: &str, tier: &str) -> i32 {
             let path = format!("{final_dir}/{prop}-{seed}-{idx}-abort.json");
             std::fs::write(&path, serde_json::to_string_pretty(&file).expect("json"))
                 .expect("write replay");
+            lines.push(format!(
+                "violation class=process-abort kind={:?} len={} : {}",
+                file.cfg.kind, file.cfg.len, file.message
+            ));
+            lines.push(format!("VIOLATION property={prop} replay={path}"));
+            abort_violations += 1;
+            exit_code = 1;
+        }
+    }
+    // two builds: compare transcripts run by run
+    let mut compared = 0u64;
+    let mut divergences: Vec<u64> = Vec::new();
+    if two_builds {
+        let mut maps: [BTreeMap<u64, (u64, u64)>; 2] = [BTreeMap::new(), BTreeMap::new()];
+        for (v, p) in &transcript_files {
+            if let Ok(b) = std::fs::read(p) {
+                for c in b.chunks_exact(24) {
+                    let idx = u64::from_le_bytes(c[0..8].try_into().expect("8"));
+                    let eh = u64::from_le_bytes(c[8..16].try_into().expect("8"));
+                    let th = u64::from_le_bytes(c[16..24].try_into().expect("8"));
+                    maps[*v].insert(idx, (eh, th));
+                }
+            }
+        }
+        for (idx, a) in &maps[0] {
+            if let Some(b) = maps[1].get(idx) {
+                compared += 1;
+                if a != b {
+                    divergences.push(*idx);
+                }
+            }
+        }
+        for idx in divergences.iter().take(5) {
+            let cfg = crate::gen::generate(prop, seed, *idx);
+            let file = ReplayFile {
+                property: prop.to_string(),
+                base_seed: seed,
+                run_index: *idx,
+                class: "build-divergence".to_string(),
+                message: "the build with debug assertions and overflow checks and the build without them produced different transcripts for this run".to_string(),
+                event_hash: 0,
+                minimised: false,
+                original_ops: 0,
+                original_deviations: 0,
+                cfg,
+                trace: vec![],
+            };
+            let path = format!("{final_dir}/{prop}-{seed}-{idx}-divergence.json");
+            std::fs::write(&path, serde_json::to_string_pretty(&file).expect("json"))
+                .expect("write replay");
+            lines.push(format!(
+                "violation class=build-divergence kind={:?} len={} : {}",
+                file.cfg.kind, file.cfg.len, file.message
+            ));
             lines.push(format!("VIOLATION property={prop} replay={path}"));
             exit_code = 1;
         }
@@ -375,10 +475,11 @@ pub fn check(prop: &str, tier: &str) -> i32 {
         &st,
         distinct,
         wall,
-        total_violations + confirmed_aborts.len() * abort_in_scope as usize,
+        total_violations + abort_violations + divergences.len(),
         &aborted_runs,
         &harness_errors,
         &known_files,
+        compared,
     );
     let _ = std::fs::remove_dir_all(&outdir);
 
@@ -431,6 +532,7 @@ fn write_evidence(
     aborted: &[(u64, String)],
     harness_errors: &[String],
     known: &BTreeMap<String, String>,
+    compared: u64,
 ) {
     let runs_per_hour = if wall > 0.0 {
         (st.runs as f64 / wall * 3600.0) as u64
@@ -448,6 +550,7 @@ fn write_evidence(
             "rule": "One evaluation = one simulated run: a workload (source kind, length, per-thread operation lists, terminal action, fault plan) and a schedule, both drawn from mix(VERIF_SEED, run index). A run is non-trivial if it has >= 2 virtual threads and at least one cross-thread conflict (an atomic location or the wrapped iterator accessed by a thread after a different thread wrote it). Two runs are the same case if they have the same conflict-order class: the hash, per atomic location and per probed object, of the sequence of (thread, access kind) of conflicting accesses. distinct_nontrivial = number of distinct conflict-order classes among non-trivial runs (set union over all workers).",
             "samples": st.samples,
             "planned_runs": planned,
+            "runs_compared_between_shipped_and_checked_build": compared,
             "workers": workers,
             "runs_per_second": st.runs as f64 / wall.max(0.001),
             "simulated_runs_per_hour": runs_per_hour,
